@@ -1,5 +1,6 @@
 import Wasp.Model.Dist
 import Wasp.Properties.C08
+import Wasp.Proofs.DistSync
 /-!
 # C10 — a full-state exchange brings a lagging node up to date
 
@@ -25,13 +26,22 @@ structure Inv (st : State) : Prop where
   topValid : ∀ kr ∈ st.topics, kr.1 = kr.2.topic ∧ validRetained kr.2
 
 theorem C10_inv_init (p : Nat) : Inv { peer := p } := by
-  sorry
+  constructor <;> simp
 
 /-- merging an event of valid entries preserves the invariant -/
 theorem C10_inv_merge (st : State) (ev : Event) (h : Inv st)
     (hs : ∀ s ∈ ev.sessions, validSession s) (hu : ∀ s ∈ ev.subs, validSub s)
     (hr : ∀ r ∈ ev.retained, validRetained r) : Inv (merge st ev) := by
-  sorry
+  have hsub : SubsInv st.subs := ⟨h.subKeys, h.subInner⟩
+  have hsub' := mergeSubs_inv ev.subs st.subs hsub hu
+  refine ⟨mergeSessions_nodup_sy _ _ h.sessKeys, ?_, hsub'.1, hsub'.2,
+    mergeRetained_nodup_sy _ _ h.topKeys hr, ?_⟩
+  · intro s hs'
+    rcases mergeSessions_mem hs' with h1 | h1
+    · exact hs s h1
+    · exact h.sessValid s h1
+  · exact mergeRetained_forall (fun k r => k = r.topic ∧ validRetained r) _ _ h.topKeys hr h.topValid
+      (fun r hr' => ⟨rfl, hr r hr'⟩)
 
 /-! ## newer entries of A win on B -/
 
@@ -39,26 +49,40 @@ theorem C10_sessions_newer_wins (A B : State) (hA : Inv A) (hB : Inv B) (id : St
     (ha : sessLookup id A.sessions = some a)
     (hnew : ∀ b, sessLookup id B.sessions = some b → b.ts < a.ts) :
     sessLookup id (merge B (snapshot A)).sessions = some a := by
-  sorry
+  have _ := hB
+  show sessLookup id (mergeSessions A.sessions B.sessions) = some a
+  rw [sessLookup_mergeSessions_sy _ _ hA.sessValid hA.sessKeys, ha]
+  exact pick_newer _ a _ hnew
 
 theorem C10_subs_newer_wins (A B : State) (hA : Inv A) (hB : Inv B) (pattern session : String) (a : Sub)
     (ha : subEntry A.subs pattern session = some a)
     (hnew : ∀ b, subEntry B.subs pattern session = some b → b.ts < a.ts) :
     subEntry (merge B (snapshot A)).subs pattern session = some a := by
-  sorry
+  have _ := hB
+  show subEntry (mergeSubs (A.subs.flatMap (·.2)) B.subs) pattern session = some a
+  have hi : SubsInv A.subs := ⟨hA.subKeys, hA.subInner⟩
+  rw [subEntry_mergeSubs_sy _ _ (subs_flat_valid _ hi) (subs_flat_pairwise _ hi), subs_flat_find _ hi, ha]
+  exact pick_newer _ a _ hnew
 
 theorem C10_retained_newer_wins (A B : State) (hA : Inv A) (hB : Inv B) (topic : String) (a : Retained)
     (ha : retEntry A.topics topic = some a)
     (hnew : ∀ b, retEntry B.topics topic = some b → b.ts < a.ts) :
     retEntry (merge B (snapshot A)).topics topic = some a := by
-  sorry
+  show retEntry (mergeRetained (A.topics.map (·.2)) B.topics) topic = some a
+  rw [retEntry_mergeRetained_sy _ _ hB.topKeys (ret_snapshot_valid _ hA.topValid)
+    (ret_snapshot_nodup _ (fun kr h => (hA.topValid kr h).1) hA.topKeys),
+    ret_snapshot_find _ (fun kr h => (hA.topValid kr h).1), ha]
+  exact pick_newer _ a _ hnew
 
 /-- and B's own entries that are at least as new stay -/
 theorem C10_sessions_keeps_newer (A B : State) (hA : Inv A) (hB : Inv B) (id : String) (b : SessionMD)
     (hb : sessLookup id B.sessions = some b)
     (hnew : ∀ a, sessLookup id A.sessions = some a → a.ts ≤ b.ts) :
     sessLookup id (merge B (snapshot A)).sessions = some b := by
-  sorry
+  have _ := hB
+  show sessLookup id (mergeSessions A.sessions B.sessions) = some b
+  rw [sessLookup_mergeSessions_sy _ _ hA.sessValid hA.sessKeys, hb]
+  exact pick_keeps _ _ b hnew
 
 /-! ## a fresh node ends up with exactly A's entries -/
 
@@ -67,7 +91,19 @@ theorem C10_fresh (A : State) (hA : Inv A) (p : Nat) :
     (∀ id, sessLookup id B'.sessions = sessLookup id A.sessions) ∧
     (∀ pat sess, subEntry B'.subs pat sess = subEntry A.subs pat sess) ∧
     (∀ t, retEntry B'.topics t = retEntry A.topics t) := by
-  sorry
+  have hi : SubsInv A.subs := ⟨hA.subKeys, hA.subInner⟩
+  refine ⟨fun id => ?_, fun pat sess => ?_, fun t => ?_⟩
+  · show sessLookup id (mergeSessions A.sessions []) = _
+    rw [sessLookup_mergeSessions_sy _ _ hA.sessValid hA.sessKeys]
+    exact pick_none_right _ _
+  · show subEntry (mergeSubs (A.subs.flatMap (·.2)) []) pat sess = _
+    rw [subEntry_mergeSubs_sy _ _ (subs_flat_valid _ hi) (subs_flat_pairwise _ hi), subs_flat_find _ hi]
+    exact pick_none_right _ _
+  · show retEntry (mergeRetained (A.topics.map (·.2)) []) t = _
+    rw [retEntry_mergeRetained_sy _ _ (by simp) (ret_snapshot_valid _ hA.topValid)
+      (ret_snapshot_nodup _ (fun kr h => (hA.topValid kr h).1) hA.topKeys),
+      ret_snapshot_find _ (fun kr h => (hA.topValid kr h).1)]
+    exact pick_none_right _ _
 
 /-! ## exchange in both directions -/
 
@@ -83,6 +119,26 @@ theorem C10_both_ways (A B : State) (hA : Inv A) (hB : Inv B) (tf : TieFreeAcros
     (∀ id, sessLookup id A'.sessions = sessLookup id B'.sessions) ∧
     (∀ pat sess, subEntry A'.subs pat sess = subEntry B'.subs pat sess) ∧
     (∀ t, retEntry A'.topics t = retEntry B'.topics t) := by
-  sorry
+  have hiA : SubsInv A.subs := ⟨hA.subKeys, hA.subInner⟩
+  have hiB : SubsInv B.subs := ⟨hB.subKeys, hB.subInner⟩
+  refine ⟨fun id => ?_, fun pat sess => ?_, fun t => ?_⟩
+  · show sessLookup id (mergeSessions B.sessions A.sessions) = sessLookup id (mergeSessions A.sessions B.sessions)
+    rw [sessLookup_mergeSessions_sy _ _ hA.sessValid hA.sessKeys,
+      sessLookup_mergeSessions_sy _ _ hB.sessValid hB.sessKeys]
+    exact pick_symm _ _ _ (tf.1 id)
+  · show subEntry (mergeSubs (B.subs.flatMap (·.2)) A.subs) pat sess =
+      subEntry (mergeSubs (A.subs.flatMap (·.2)) B.subs) pat sess
+    rw [subEntry_mergeSubs_sy _ _ (subs_flat_valid _ hiA) (subs_flat_pairwise _ hiA), subs_flat_find _ hiA,
+      subEntry_mergeSubs_sy _ _ (subs_flat_valid _ hiB) (subs_flat_pairwise _ hiB), subs_flat_find _ hiB]
+    exact pick_symm _ _ _ (tf.2.1 pat sess)
+  · show retEntry (mergeRetained (B.topics.map (·.2)) A.topics) t =
+      retEntry (mergeRetained (A.topics.map (·.2)) B.topics) t
+    rw [retEntry_mergeRetained_sy _ _ hB.topKeys (ret_snapshot_valid _ hA.topValid)
+        (ret_snapshot_nodup _ (fun kr h => (hA.topValid kr h).1) hA.topKeys),
+      ret_snapshot_find _ (fun kr h => (hA.topValid kr h).1),
+      retEntry_mergeRetained_sy _ _ hA.topKeys (ret_snapshot_valid _ hB.topValid)
+        (ret_snapshot_nodup _ (fun kr h => (hB.topValid kr h).1) hB.topKeys),
+      ret_snapshot_find _ (fun kr h => (hB.topValid kr h).1)]
+    exact pick_symm _ _ _ (tf.2.2 t)
 
 end Wasp.Dist
